@@ -233,7 +233,14 @@ impl<S: PageSize> Iterator for PhysFrameRangeInclusive<S> {
     fn next(&mut self) -> Option<Self::Item> {
         if self.start <= self.end {
             let frame = self.start;
-            self.start += 1;
+            // The frame after the last physical frame does not exist: if `start` is the last
+            // physical frame (and thus the last frame of the range), make the range empty by
+            // decrementing `end` instead of incrementing `start`.
+            let next_addr = self.start.start_address().as_u64().checked_add(S::SIZE);
+            match next_addr.map(PhysAddr::try_new) {
+                Some(Ok(addr)) => self.start = PhysFrame::containing_address(addr),
+                _ => self.end -= 1,
+            }
             Some(frame)
         } else {
             None
